@@ -25,7 +25,7 @@ Theorem C05_public :
     run_f64 L s p = Ok (denoteF L (desugar pt_f64 p sx)).
 Proof.
   intros L s p sx Ws Et Sc. unfold run_f64.
-  rewrite (wellformed_evaluates lt_f64 conv_f64 pt_f64 (eval_f64 L) eq_refl s p sx Ws Et).
+  rewrite (wellformed_evaluates lt_f64 conv_f64 pt_f64 (eval_f64 L) eq_refl eq_refl s p sx Ws Et).
   now apply eval_f64_ieee.
 Qed.
 Print Assumptions C05_public.
